@@ -1436,6 +1436,14 @@ class Authenticated(BaseClientHandler):
             )
             return
 
+        # A mailbox opened with EXAMINE is read-only: fetching a body does not
+        # set \Seen there, so every body fetch is a peek.
+        #
+        if self.examine:
+            for att in cmd.fetch_atts:
+                att.peek = True
+            cmd.fetch_peek = True
+
         # If this client has pending EXPUNGE messages then we return a
         # tagged No response.. the client should see this and do a NOOP or
         # such and receive the pending expunges. Unless this is a UID
@@ -1521,6 +1529,12 @@ class Authenticated(BaseClientHandler):
                 "Your selected mailbox no longer exists"
             )
             return
+
+        # A mailbox opened with EXAMINE is read-only: its flags can not be
+        # changed.
+        #
+        if self.examine:
+            raise No("Mailbox is read-only")
 
         # If this client has pending EXPUNGE messages then we return a
         # tagged No response.. the client should see this and do a NOOP or
